@@ -8,7 +8,8 @@ LEVEL = ("Mechanism level with obligations derived from the AST types: for every
          "with indent + indent_step (or the unchanged indent for seq flattening); compound handlers write their header at "
          "`indent` first; every simple variant goes to beautify_simple/beautify_call with the node itself; Display impls "
          "and beautify_call read every operand field; the hopon rewrite is taken only on the try_hopon flag edge. Exact "
-         "text and the hopon pattern's own conditions are not decided.")
+         "text and the hopon pattern's own conditions are not decided."
+         " Added: Display impls hand their operand fields to the formatter in declaration (= script) order.")
 
 HANDLERS = {
     "Seq": ("beautify_seq", "same"), "Par": ("beautify_par", "step"), "Xor": ("beautify_xor", "step"), "Match": ("beautify_match", "step"),
